@@ -9,11 +9,13 @@ package main
 
 import (
 	"fmt"
+	"strings"
 	"sync"
 	"sync/atomic"
 	"time"
 
 	"github.com/safing/portbase/api"
+	"github.com/safing/portbase/config"
 
 	"verifharness/internal/vlib"
 )
@@ -152,6 +154,7 @@ func runSessClean(w *world, j *judge, cs childSpec) error {
 					}
 				}
 				ro := w.doConcurrent(&reqSpec{Via: "handler", Method: "GET", Host: testHost, Path: "/api/v1/auth/reset", Cookie: cookieName + "=" + victim,
+					Authz:  resetAuthzVariants(nil)[(c+i)%len(resetAuthzVariants(nil))],
 					Target: mTarget{Route: "endpoint", DeclR: mAnyone, DeclW: mNotSupported}})
 				w.b.Count("session_resets", 1)
 				mu.Lock()
@@ -178,8 +181,8 @@ func runSessClean(w *world, j *judge, cs childSpec) error {
 		j.b.Eval(1)
 		j.b.Count("sessclean_reset_checks", 1)
 		if o.Invoked > 0 {
-			j.b.Violation("C12:reset-session-still-grants:cleaner-concurrent",
-				fmt.Sprintf("session reset was answered 401 \"Session deleted.\" while the session cleaner was running; afterwards the old cookie still runs an Admin-only handler (token seen %v)", o.Tok),
+			j.b.Violation("C12:reset-session-still-grants:after-answered-reset",
+				fmt.Sprintf("session reset was answered 401 \"Session deleted.\" (session cleaner running concurrently, reset requests carry assorted Authorization headers); afterwards the old cookie still runs an Admin-only handler (token seen %v)", o.Tok),
 				map[string]any{"obs": o, "cleaner_passes": passes.Load(), "sessions": len(live), "replay": tableReplay{Mode: "sessclean"}})
 		}
 	}
@@ -381,5 +384,174 @@ func runBadEntry(w *world, j *judge, cs childSpec) error {
 		}
 	}
 	j.b.Count("badentry_rounds", int64(cs.N))
+	return nil
+}
+
+// runRevokeBy: the ways an admin takes access away again — setting an empty key list or
+// false, or resetting the option to its default (value nil, what the config database's
+// Delete and a user interface's "reset" do) — for the API keys and for development mode.
+// Once the change has returned and nothing is running or pending, the value that config's
+// own getters report is the one in force.
+func runRevokeBy(w *world, j *judge, cs childSpec) error {
+	r := vlib.NewRand(cs.Seed, "C12/revokeby", uint64(cs.Shard))
+	targets := []target{
+		{"/verif/p/m1/m1", mTarget{"plain", mDynamic, mDynamic}}, {"/verif/p/2/2", mTarget{"plain", mUser, mUser}}, {"/verif/p/3/3", mTarget{"plain", mAdmin, mAdmin}},
+		{"/verif/p/4/4", mTarget{"plain", mSelf, mSelf}}, {"/api/v1/verif/e/3/2", mTarget{"endpoint", mAdmin, mUser}},
+	}
+	gp := []methodVar{{"GET", "", ""}, {"POST", "", ""}}
+	present := func(mode string, keys []cfgKey) {
+		ps := []prepared{{cv: credVal{Tag: "revokeby/none"}, ok: true}}
+		for i, k := range keys {
+			form := "Bearer " + k.Key
+			if i%2 == 1 {
+				form = "Basic " + b64(":"+k.Key)
+			}
+			ps = append(ps, prepared{cv: credVal{Tag: "revokeby/" + k.Tag, Authz: form}, ok: true})
+		}
+		for _, p := range ps {
+			for _, t := range targets {
+				for _, mv := range gp {
+					w.b.Count("table_cells_planned", 1)
+					j.tableCell(mode, p, t, mv, "")
+					j.b.Count("revokeby_cells", 1)
+				}
+			}
+		}
+	}
+	for round := 0; round < cs.N; round++ {
+		for _, how := range []string{"reset", "empty", "reset-after-reset", "empty-then-reset"} {
+			a := cfgKey{Key: "A" + randKey(r, 12), R: kwAdmin, W: kwAdmin, Tag: "admin-key"}
+			b := cfgKey{Key: "B" + randKey(r, 12), R: kwUser, W: kwAnyone, Tag: "user-key"}
+			if err := w.setKeys([]cfgKey{a, b}); err != nil {
+				return err
+			}
+			present("revokeby-keys-before", []cfgKey{a, b})
+			var err error
+			switch how {
+			case "reset":
+				err = w.resetKeys()
+			case "empty":
+				err = w.setKeys(nil)
+			case "reset-after-reset":
+				if err = w.resetKeys(); err == nil {
+					err = w.resetKeys()
+				}
+			default:
+				if err = w.setKeys(nil); err == nil {
+					err = w.resetKeys()
+				}
+			}
+			if err != nil {
+				return err
+			}
+			j.b.Seen("revokeby_ways", "keys/"+how)
+			present("revokeby-keys-after-"+how, []cfgKey{a, b})
+			// and the keys can be configured again afterwards
+			if err := w.setKeys([]cfgKey{b}); err != nil {
+				return err
+			}
+			present("revokeby-keys-again", []cfgKey{a, b})
+		}
+		for _, how := range []string{"reset", "false"} {
+			if err := w.setDev(true); err != nil {
+				return err
+			}
+			present("revokeby-dev-on", w.configured)
+			var err error
+			if how == "reset" {
+				err = w.resetDev()
+			} else {
+				err = w.setDev(false)
+			}
+			if err != nil {
+				return err
+			}
+			j.b.Seen("revokeby_ways", "dev/"+how)
+			present("revokeby-dev-after-"+how, w.configured)
+		}
+	}
+	return nil
+}
+
+// runBurst: two changes of the key setting in quick succession — the second one arrives
+// while the import of the first is still running (the first import is parked inside its
+// api.keys.updated hook until the second SetConfigOption has returned). Once nothing is
+// running or pending, the newest setting is the enforced one.
+func runBurst(w *world, j *judge, cs childSpec) error {
+	r := vlib.NewRand(cs.Seed, "C12/burst", uint64(cs.Shard))
+	targets := []target{{"/verif/p/2/2", mTarget{"plain", mUser, mUser}}, {"/verif/p/3/3", mTarget{"plain", mAdmin, mAdmin}}, {"/verif/p/m1/m1", mTarget{"plain", mDynamic, mDynamic}}}
+	gp := []methodVar{{"GET", "", ""}, {"POST", "", ""}}
+	for round := 0; round < cs.N; round++ {
+		a := cfgKey{Key: "A" + randKey(r, 12), R: kwAdmin, W: kwAdmin, Tag: "first-setting"}
+		b := cfgKey{Key: "B" + randKey(r, 12), R: kwUser, W: kwUser, Tag: "second-setting"}
+		c := cfgKey{Key: "C" + randKey(r, 12), R: kwAdmin, W: kwUser, Tag: "both-settings"}
+		c2 := c
+		c2.R = kwAnyone
+		l1, l2 := []cfgKey{a, c}, []cfgKey{c2, b}
+		if round%3 == 2 {
+			l2 = nil // the second change revokes everything
+		}
+		parked, release := make(chan struct{}), make(chan struct{})
+		armed := true
+		w.keyEvMu.Lock()
+		w.onKeyEv = func(idx int, snap string, dirty bool) {
+			if armed && strings.Contains(snap, a.Key) {
+				armed = false
+				close(parked)
+				select {
+				case <-release:
+				case <-time.After(60 * time.Second):
+				}
+			}
+		}
+		w.keyEvMu.Unlock()
+		mk := w.mark()
+		if err := w.guarded("SetConfigOption(core/apiKeys)", func() error { return config.SetConfigOption(api.CfgAPIKeys, cfgStrings(l1)) }); err != nil {
+			return err
+		}
+		select {
+		case <-parked:
+		case <-time.After(60 * time.Second):
+			close(release)
+			return errInconclusive("burst: the import of the first setting did not start within 60s")
+		}
+		// the second change lands while the first import is running
+		err := w.guarded("SetConfigOption(core/apiKeys)", func() error { return config.SetConfigOption(api.CfgAPIKeys, cfgStrings(l2)) })
+		close(release)
+		w.keyEvMu.Lock()
+		w.onKeyEv = nil
+		w.keyEvMu.Unlock()
+		if err != nil {
+			return err
+		}
+		ok, how := w.awaitImport(mk, cfgStrings(l2))
+		if !ok {
+			return w.awaitFailed(mk.upd, l2, l2, "burst: api.keys.updated with the second setting")
+		}
+		if how == settledNoImport {
+			w.b.Count("settled_without_import", 1)
+			if cur := strings.Join(w.keysGetSafe(), "\n"); cur != strings.Join(cfgStrings(l2), "\n") {
+				return w.awaitFailed(mk.upd, l2, l2, "burst: the second setting")
+			}
+		}
+		w.configured = l2
+		w.model.setKeys(l2)
+		w.b.Count("key_updates_awaited", 1)
+		w.b.Count("burst_rounds", 1)
+		for i, k := range []cfgKey{a, b, c} {
+			form := "Bearer " + k.Key
+			if i == 1 {
+				form = "Basic " + b64(k.Key+":")
+			}
+			p := prepared{cv: credVal{Tag: "burst/" + k.Tag, Authz: form}, ok: true}
+			for _, t := range targets {
+				for _, mv := range gp {
+					w.b.Count("table_cells_planned", 1)
+					j.tableCell("burst", p, t, mv, "")
+					j.b.Count("burst_cells", 1)
+				}
+			}
+		}
+	}
 	return nil
 }
